@@ -61,9 +61,10 @@ type smap struct {
 
 // mapIter iterates over a snapshot of the keys.
 type mapIter struct {
-	m     *smap
-	order []value
-	i     int
+	m       *smap
+	order   []value
+	i       int
+	permute bool
 }
 
 type strIter struct {
